@@ -67,6 +67,9 @@ extern "C" {
 void vrt_acquired (const void *mu, int writer);
 void vrt_releasing (const void *mu, int writer);
 int vrt_holders (const void *mu, int writer);
+/* state snapshots for the lock-step replay: fn writes a one-line canonical description of the watched objects */
+void vrt_set_snapshot (void (*fn) (char *buf, size_t n));
+void vrt_region_name (const void *p, char *buf, size_t n);
 #ifdef __cplusplus
 }
 #endif
